@@ -15,6 +15,78 @@ META = {
         "note": TIE + " md5/sha256 digest internals are external (hashlib); theorems treat the digest as an arbitrary function; determinism of the Python functions is checked by repeated calls only.",
         "technique": "Lean 4 proof (induction on depth / key) + translator-regenerated constants + correspondence",
     },
+    "C01": {
+        "text": "Theorems for every geometry (m ≥ 1), every hash list/strategy and every history length: a hash list added to a Bloom filter checks true immediately and after any later add, union (either side, any estimator), and query; only clear forgets (C01_bloom, C01_bloom_keys); the expanding filter reports every hash list ever added after any sequence of add(force)/push (C01_expanding). On-disk: C11_added_present/C11_present_mono/C11_history. Tie: bloom, expanding and on-disk suites (bits after every step, all strategies incl. md5/sha256/custom, str and bytes keys, m % 8 ≠ 0).",
+        "design_ref": "§4 C01",
+        "note": TIE + " Export/load and reopen steps are carried by the C05/C11 theorems plus the tie.",
+        "technique": "Lean 4 proof (bit lemmas, induction over operation sequences) + correspondence",
+    },
+    "C02": {
+        "text": "For all w,d ≥ 1, any strategy H and any Legit/Small history: every bin is the signed sum of the amounts of the keys falling on it (C02_bin_invariant), hence estimate ≥ true count (C02_lower), ≤ total = Σ (C02_upper), exact when a row is collision-free (C02_exact_row), and the value returned by add/remove equals check afterwards in all three query modes (C02_ret). Tie: cms suite (bins, totals, returned values after every step; widths 1–3 and large; all strategies).",
+        "design_ref": "§4 C02",
+        "note": TIE + " Claimed for legitimate removals and totals ≤ 2^31−1.",
+        "technique": "Lean 4 proof (invariant by induction over histories) + correspondence",
+    },
+    "C03": {
+        "text": "For ALL G, ALL oracle lists, all parameters ≥ 1: conservation of every weighted table sum through first-fit, the kick loop, re-insertion and expansion (C03_insertFp_conservation*); a successful add keeps everything contained and adds the key (C03_add_ok); a failed add (CuckooFilterFullError) returns the table unchanged (C03_failed_add); remove touches only its fingerprint; expansion conserves all bins; lifted to all histories: every live key has check > 0 (C03_history, C03_exact). Tie: cuckoo suite with the recorded random draws as the model's oracle; search enumerates every oracle script on tiny tables.",
+        "design_ref": "§4 C03",
+        "note": TIE + " The random module is replaced by an arbitrary oracle in the theorems.",
+        "technique": "Lean 4 proof (conservation law by induction on kick fuel, invariant over histories, ∀ oracle) + correspondence with recorded oracle",
+    },
+    "C07": {
+        "text": "Over ℝ, on the same generic definitions the Float instance executes: 2/width ≤ ε; 1−2^(−depth) ≥ confidence with NO numeric hypothesis (the code's literal 0.6931471805599453 ≤ ln 2 is proved from a series); 2b/2^f ≤ ε for the cuckoo fingerprint size; Bloom: m = ⌈−n ln t / c₁⌉ facts, |k − c₂m/n| ≤ ½, exp(−c₁m/n) ≤ t, exact characterisation of when _get_optimized_params succeeds and which error it raises; reload stability for any idempotent narrowing (C07_stable, also for Float). Tie: sizing suite compares the Float instance with the code bit-for-bit (incl. float32 narrowing, round-half-even, error kinds).",
+        "design_ref": "§4 C07, §7",
+        "note": TIE + " IEEE-754 rounding between ℝ and Float is not verified. The 7% Bloom rounding allowance is the visible Prop C07_BloomRoundingAllowance (C07_bloom_partial is conditional on it).",
+        "technique": "Lean 4 + Mathlib proof over ℝ (single modules) + bit-for-bit Float correspondence",
+    },
+    "C09": {
+        "text": "For all est ≥ 1 and all histories of add(present, hs, force)/push with an ARBITRARY membership answer at each step: every sub-filter count stays in [0, est] (C09_bound), without push the counts are replicate e est ++ [c] and expansions = if I = 0 then 0 else (I−1)/est = max(0, ⌈I/est⌉−1) (C09_shape, C09_expansions, C09_expansions_ceil), elements_added counts every call (C09_counted), growth only when the newest filter is full (C09_grow_iff); real addAlt histories refine these (C09_api). Tie: expanding suite (per-filter counts from the object, expansions, after every step and after reload).",
+        "design_ref": "§4 C09",
+        "note": TIE,
+        "technique": "Lean 4 proof (invariant + shape by induction over histories) + correspondence",
+    },
+    "C10": {
+        "text": "For all est, Q ≥ 1 and all add/push/pop histories: 1 ≤ queue ≤ Q and per-filter counts ≤ est (C10_bounds); pop refused exactly on a single-filter queue (C10_pop_guard/C10_pop_ok_iff); the retention window: a hash list inserted effectively is still reported after up to (Q−1)·est further effective insertions (C10_window, C10_window_api — unconditional, the bit-level facts are proved), with tests showing the bound is tight. Tie: expanding suite in rotating mode probing every key of the history.",
+        "design_ref": "§4 C10",
+        "note": TIE + " Same max_queue_size re-supplied on reload.",
+        "technique": "Lean 4 proof (potential argument over histories) + correspondence",
+    },
+    "C11": {
+        "text": "Byte-level protocol of the on-disk filter for all geometries and hash lists: at EVERY prefix of the micro-steps of an add the file has the documented shape with the original parameters, all earlier bits set and the stored count = completed additions, becoming count+1 only with the last micro-step (C11_crash_points); such files load with the original geometry (C11_prefix_loads); a completed add refines the in-memory add (C11_add_refines) so the closed file is exactly the in-memory export (C11_close_is_export); reopen restores parameters, count and bits (C11_reopen); lifted to all histories of add/close+reopen (C11_history). Tie: ondisk suite compares the file contents seen at every executed source line (sys.settrace, separate descriptor) with the model's micro-step trace; files inside/outside cwd, relative/absolute, reopen from another directory; thorough: real SIGKILL at every line event.",
+        "design_ref": "§4 C11, §7",
+        "note": TIE + " Partial w.r.t. the OS: power loss, fsync ordering, torn multi-byte stores are not modelled; path resolution is checked by tie/search only.",
+        "technique": "Lean 4 proof over micro-step traces (every prefix) + trace correspondence + kill -9 enumeration (support)",
+    },
+    "C12": {
+        "text": "Bloom: byte-for-byte equality of union(run xs, run ys) with run (xs++ys) for all geometries/histories (C12_bloom_general, no hash-length hypothesis); counting Bloom: cells of the union equal the single-stream cells below saturation (C12_cbf, exact per-cell bound incl. coinciding positions); count-min: join (run xs) (run ys) = run (xs++ys) as whole sketches when unclamped (C12_cms). Tie: bloom/cbf/cms suites and on-disk operands on either side (ondisk suite).",
+        "design_ref": "§4 C12",
+        "note": TIE + " Unsaturated states, as the property states.",
+        "technique": "Lean 4 proof (list/byte algebra, induction over histories) + correspondence",
+    },
+    "C13": {
+        "text": "Intersection has exactly the AND at every position and reports a hash list iff both operands do (C13_inter_bits, C13_inter_member_iff); Jaccard numerator/denominator are the counts of positions set in both/either, symmetric, ≤ 1, = 1 on identical incl. empty operands (C13_jaccard); counting variants on non-zero positions; incompatibility ⇒ none / CountMinSketchError exactly (C13_incompatible, C13_join_error_iff). Tie: set-operation lines of the bloom/cbf/cms/ondisk suites plus operand observations after each operation.",
+        "design_ref": "§4 C13",
+        "note": TIE + " 'Operands unchanged' and TypeError for foreign types are decided by tie and search (outside the model).",
+        "technique": "Lean 4 proof (bitwise lemmas, popcount) + correspondence",
+    },
+    "C15": {
+        "text": "Inv (table length = cap, bucket sizes ≤ b, every bin in one of its two candidate buckets, no duplicate fingerprints, counts ≥ 1, counts = 1 for the plain filter) holds for new and is preserved by add/remove/expand for ALL G and ALL oracles, succeed or fail (C15_step, C15_run); a failed call returns the state unchanged; capacity is cap₀·rate^j (C15_capacity). Tie: cuckoo suite (table and capacity after every step incl. loads); search evaluates Inv on the real buckets over all oracle scripts of tiny tables.",
+        "design_ref": "§4 C15",
+        "note": TIE,
+        "technique": "Lean 4 proof (invariant by induction, ∀ oracle) + correspondence with recorded oracle",
+    },
+    "C16": {
+        "text": "For every amount n ≥ 1 (unbounded Int): count-min add/remove/join return normally, touched bins become max(−2^31, min(2^31−1, old ± n)), totals are clamped to 64 bits, returned value = check, limit bins are left alone by join, export succeeds (C16_cms_*; invariant over all histories C16_cms_history); counting Bloom: add returns normally with cells min(2^32−1, old + n·multiplicity) (coinciding positions), limit cells are never decremented, union/intersection clamp (C16_cbf_*). Tie: cms and cbf suites with amounts around 2^31, 2^32, 2^63, 2^64.",
+        "design_ref": "§4 C16",
+        "note": TIE,
+        "technique": "Lean 4 proof (closed forms of the store loops, invariant over histories) + correspondence",
+    },
+    "C19": {
+        "text": "clear() equals the freshly constructed structure (Bitarray, Bloom, counting Bloom, count-min in every mode, heavy hitters, stream threshold); the read paths that write are mirrored and proved no-ops (on-disk export()/close() rewrite the stored count with the value the file already holds: C19_ondisk_export_noop/close_noop). Query purity in general is typing in the model: it is decided by the tie — every suite interleaves every read-only call and compares the complete observation set afterwards — and by the search.",
+        "design_ref": "§4 C19, §7",
+        "note": TIE + " Query purity is decided by correspondence/search, not by a theorem.",
+        "technique": "Lean 4 proof of clear = init and mirrored read paths + correspondence for query purity",
+    },
 }
 
 ALL = ["C%02d" % i for i in range(1, 21)]
